@@ -13,7 +13,14 @@
    minimum interval), the pauses and the observation window were kept, and the model predicts the
    same outcome for every interleaving of the scenario (pred # "mixed"; this covers the races inside
    a group of operations scheduled with gap 0: no signal fell into such a group, so the group was
-   atomic for the client as in the model). Anything else is INCONCLUSIVE and is not a verdict.   *)
+   atomic for the client as in the model). Anything else is INCONCLUSIVE and is not a verdict.
+   One more decisive shape (added after seeded change C38-s3): the FIRST operation of a scenario
+   starts on an idle watcher (no event exists before it, no wait is running), so a signal that the
+   client receives less than half of additionalWait after that operation STARTED, while the
+   operation is a slow write that is still between its truncation and its data, cannot come from
+   the loop of confwatcher.go as modelled (WDecide -> sleep AddWait -> WWake): the writer was not
+   given the time to complete its job. If such a run also loses the final content it is a verdict of
+   its own class (never the minimum-interval class).                                            *)
 EXTENDS ConfWatcher
 
 Trace == ndJsonDeserialize("C38_trace.ndjson")
@@ -58,10 +65,18 @@ Class(r) ==
 
 Holds(r) == FinalLoadedRec(r.exists, r.loaded, r.final)
 
+\* a signal reached the client while the first operation (on an idle watcher) was less than AddWait/2 old
+Premature(r) == /\ NOps(r) >= 1 /\ WindowKept(r) /\ GapsAsPlanned(r)
+                /\ \E j \in 1..Len(r.signals) :
+                      /\ r.signals[j].t > r.ops[1].s
+                      /\ r.signals[j].t < r.ops[1].s + (AddWaitUs \div 2)
+                      /\ r.signals[j].t < r.ops[1].e
+
 Verdicts == l >= 1 =>
     LET r == Trace[l] IN
     \/ Holds(r)
-    \/ IF Decisive(r) THEN Emit("BAD", [l |-> l, run |-> r.run, class |-> Class(r)])
+    \/ IF Premature(r) THEN Emit("BAD", [l |-> l, run |-> r.run, class |-> "notified_before_the_writer_had_additional_wait_to_finish"])
+       ELSE IF Decisive(r) THEN Emit("BAD", [l |-> l, run |-> r.run, class |-> Class(r)])
                       ELSE Emit("INCONCLUSIVE", [l |-> l, run |-> r.run, why |-> Why(r), class |-> Class(r)])
 
 \* conformance with the model's prediction (never a verdict)
